@@ -45,6 +45,7 @@ type fnCtx struct {
 	allowed  map[string][]string
 	keyed    map[loopKeyRes][]Clause
 	callOcc  map[*ssa.Call]int
+	renames  map[string]string // baseline local name -> current local name (see localRenames)
 	retOcc   map[*ssa.Return]int
 	env      *SpecEnv // for invariants (top-level function only)
 }
@@ -892,7 +893,10 @@ func (e *Engine) loopKeys(fc *fnCtx) map[loopKeyRes][]Clause {
 			}
 		}
 		if !ok {
-			e.specFail(fc.env, fmt.Sprintf("invariant[%s]: no loop with that header in %s (loops: %s)", key, fc.fn.Name(), strings.Join(texts, " | ")))
+			for _, cl := range cls {
+				e.dropClause(cl.Text, fmt.Sprintf("invariant[%s]: no loop with that header in %s (loops: %s)", key, fc.fn.Name(), strings.Join(texts, " | ")))
+			}
+			continue
 		}
 		fc.keyed[loopKeyRes{key, ord}] = cls
 	}
@@ -950,7 +954,11 @@ func resolveLoopKey(texts []string, key string) (int, bool) {
 	return 0, false
 }
 
-func (e *Engine) evalInv(fc *fnCtx, li *loopInfo, st *State, c Clause) string {
+func (e *Engine) evalInv(fc *fnCtx, li *loopInfo, st *State, c Clause) (out string) {
+	if e.droppedClause[c.Text] {
+		return "true"
+	}
+	defer e.recoverClause(c.Text, &out)
 	env := fc.env.with(st)
 	env.loop = li
 	env.fc = fc
@@ -1421,7 +1429,9 @@ func (e *Engine) checkReturnAsserts(fc *fnCtx, st *State, ret *ssa.Return) {
 		}
 		env.bindResults(fc.fn.Signature, rvals)
 		env.curBlock = ret.Block()
-		e.addObl(fc.fn, "assert", "["+key+"] "+cl.Text, ret.Pos(), st.Reach, e.trSpec(env, cl.E).T)
+		if f, okc := e.clauseTerm(env, cl); okc {
+			e.addObl(fc.fn, "assert", "["+key+"] "+cl.Text, ret.Pos(), st.Reach, f)
+		}
 	}
 }
 
@@ -1458,4 +1468,42 @@ func (e *Engine) pruneDryRun(start, n0, ep0 int) {
 		kept = append(kept, ln)
 	}
 	e.sc.lines = kept
+}
+
+// A clause that cannot be interpreted on the current tree (it names a local, a call or a loop that no longer exists)
+// is dropped on its own: the obligations it generated in the baseline vanish (reported, not an alarm), and everything
+// else of the contract is still checked - obligations that relied on the dropped clause then fail by name.
+func (e *Engine) dropClause(text, why string) {
+	if e.droppedClause == nil {
+		e.droppedClause = map[string]bool{}
+	}
+	if !e.droppedClause[text] {
+		e.droppedClause[text] = true
+		e.dropped = append(e.dropped, why+" :: "+text)
+	}
+}
+
+func (e *Engine) recoverClause(text string, out *string) {
+	if r := recover(); r != nil {
+		if se, ok := r.(specError); ok {
+			e.dropClause(text, se.msg)
+			*out = "true"
+			return
+		}
+		panic(r)
+	}
+}
+
+// clauseTerm translates a clause; ok is false when the clause had to be dropped.
+func (e *Engine) clauseTerm(env *SpecEnv, cl Clause) (t string, ok bool) {
+	if e.droppedClause[cl.Text] {
+		return "true", false
+	}
+	t = "true"
+	func() {
+		defer e.recoverClause(cl.Text, &t)
+		t = e.trSpec(env, cl.E).T
+		ok = true
+	}()
+	return t, ok
 }
